@@ -68,6 +68,14 @@ impl CaoLangAllocator {
         (limit / 4).max(16)
     }
 
+    /// Set the collection threshold back to its start-up value. Called when the VM is cleared, so a
+    /// cleared VM collects (and runs out of memory) exactly like a new one
+    pub fn reset_gc_threshold(&self) {
+        let limit = self.limit.load(Ordering::Relaxed);
+        self.next_gc
+            .store(Self::min_gc_threshold(limit), Ordering::Relaxed);
+    }
+
     /// # Safety
     /// `alloc` is not thread safe. It is on the caller to ensure that only a single thread uses
     /// the allocator at a time
